@@ -3,10 +3,10 @@ package props
 // C12 — BufferedWriteSyncer delivers every byte once, in order, in whole writes.
 
 import (
-	"io"
 	"bytes"
 	"encoding/json"
 	"fmt"
+	"io"
 	"os"
 	"os/exec"
 	"runtime"
